@@ -238,6 +238,15 @@ def Endpoint.connect (e : Env) (rng : Rng) (counter : Nat) (ep : Endpoint) : End
   let (ep, rng) := ep.sendInitial e rng hsVersionLatest
   (ep, rng, counter)
 
+/-- the challenge ack completes the client's handshake: sequence numbers from the cookie, stamps, callback -/
+def Endpoint.onAck (e : Env) (ep : Endpoint) (ch : Challenge) (hs : HsData) : Endpoint :=
+  let c := if !ch.restarted then
+      { (ep.c.seqInit (seqFromCookie hs.cookie 0) (seqFromCookie hs.cookie 1)) with cookie := hs.cookie }
+    else ep.c
+  let c := { c with lastRecvMs := e.nowMs, lastSendMs := e.nowMs, connected := true }
+  let c := c.emit (.connect ch.restarted)
+  { ep with c := c, chal := some { ch with state := stInit, restarted := false } }
+
 /-- `handshake_incoming` for a handshake packet that parsed; returns the C return code -/
 def Endpoint.handshakeIncoming {T} (tm : TimeOps T) (e : Env) (rng : Rng) (ep : Endpoint) (hs : HsData) (clientId : Nat) :
     Endpoint × Rng × Int :=
@@ -252,13 +261,7 @@ def Endpoint.handshakeIncoming {T} (tm : TimeOps T) (e : Env) (rng : Rng) (ep : 
         let ep := { ep with chal := some { ch with lastChallengeMs := e.nowMs } }
         let (ep, rng) := ep.sendResponse e rng hs.secretId hs.ts hs.cookie
         ({ ep with chal := ep.chal.map fun ch => { ch with state := stLocal } }, rng, 0)
-      else if hs.ptype == ptAck && tm.lt0 ts then
-        let c := if !ch.restarted then
-            { (ep.c.seqInit (seqFromCookie hs.cookie 0) (seqFromCookie hs.cookie 1)) with cookie := hs.cookie }
-          else ep.c
-        let c := { c with lastRecvMs := e.nowMs, lastSendMs := e.nowMs, connected := true }
-        let c := c.emit (.connect ch.restarted)
-        ({ ep with c := c, chal := some { ch with state := stInit, restarted := false } }, rng, 0)
+      else if hs.ptype == ptAck && tm.lt0 ts then (ep.onAck e ch hs, rng, 0)
       else (ep, rng, 0)
     else if hs.restart then
       if ep.c.cookie.all (· == 0) then (ep, rng, -3) else
@@ -347,14 +350,19 @@ def Endpoint.peek (e : Env) (ep : Endpoint) (bytes : List UInt8) : Int :=
 
 /-! ## listener -/
 
-structure Listener (T : Type) where
-  log : List Event := []
+/-- the listener's persistent state (`struct utcp_listener` minus the scratch fields that every call resets) -/
+structure LState (T : Type) where
   secret0 : List UInt8 := List.replicate 64 0
   secret1 : List UInt8 := List.replicate 64 0
   active : Nat := 255
   lastSecretUpdate : T
   /-- bytes 1… of `LastChallengeSuccessAddress` left over from the last completed handshake (never read) -/
   addrScratch : List UInt8 := []
+
+/-- a listener: persistent state plus the monotone log of what it emitted -/
+structure Listener (T : Type) where
+  st : LState T
+  log : List Event := []
 
 def Listener.emit {T} (l : Listener T) (ev : Event) : Listener T := { l with log := ev :: l.log }
 
@@ -363,12 +371,12 @@ abbrev Mac := List UInt8 → List UInt8 → List UInt8
 def le64 (n : Nat) : List UInt8 := (List.range 8).map fun i => UInt8.ofNat ((n >>> (8*i)) % 256)
 
 /-- `GenerateCookie` -/
-def Listener.cookie {T} (mac : Mac) (l : Listener T) (addr : String) (sid : Bool) (ts : UInt64) : List UInt8 :=
+def LState.cookie {T} (mac : Mac) (l : LState T) (addr : String) (sid : Bool) (ts : UInt64) : List UInt8 :=
   let a := addr.toUTF8.toList
   mac (if sid then l.secret1 else l.secret0) (le64 ts.toNat ++ le64 a.length ++ a)
 
 /-- `utcp_listener_update_secret` -/
-def Listener.updateSecret {T} (tm : TimeOps T) (e : Env) (rng : Rng) (l : Listener T) (special : Option (List UInt8)) : Listener T × Rng :=
+def LState.updateSecret {T} (tm : TimeOps T) (e : Env) (rng : Rng) (l : LState T) (special : Option (List UInt8)) : LState T × Rng :=
   let l := { l with lastSecretUpdate := tm.now e.elapsedUs }
   let (l, rng) :=
     if l.active == 255 then
@@ -380,11 +388,48 @@ def Listener.updateSecret {T} (tm : TimeOps T) (e : Env) (rng : Rng) (l : Listen
     | none => let (rng, s) := rng.bytes 64; (rng, s)
   (if l.active == 0 then { l with secret0 := s } else { l with secret1 := s }, rng)
 
+def Listener.updateSecret {T} (tm : TimeOps T) (e : Env) (rng : Rng) (l : Listener T) (special : Option (List UInt8)) : Listener T × Rng :=
+  let (st, rng) := l.st.updateSecret tm e rng special
+  ({ l with st := st }, rng)
+
 /-- `utcp_listener_create` + `utcp_listener_init` -/
 def Listener.create {T} (tm : TimeOps T) (e : Env) (rng : Rng) : Listener T × Rng :=
-  let l : Listener T := { lastSecretUpdate := tm.now e.elapsedUs }
+  let l : Listener T := { st := { lastSecretUpdate := tm.now e.elapsedUs } }
   let l := l.emit (.alloc .lsn)
   l.updateSecret tm e rng none
+
+/-- `bValidCookieLifetime`: not from the future, and younger than `MAX_COOKIE_LIFETIME` -/
+def LState.validLife {T} (tm : TimeOps T) (e : Env) (hs : HsData) : Bool :=
+  tm.ge0 (tm.sub (tm.now e.elapsedUs) (tm.ofBits hs.ts)) && tm.gt0 (tm.lifeLeft (tm.sub (tm.now e.elapsedUs) (tm.ofBits hs.ts)))
+
+/-- `bValidSecretIdTimestamp`: issued under the active secret after the last rotation, or under the other one before it -/
+def LState.validSecret {T} (tm : TimeOps T) (l : LState T) (hs : HsData) : Bool :=
+  if (if hs.secretId then 1 else 0) == l.active then tm.ge0 (tm.sub (tm.ofBits hs.ts) l.lastSecretUpdate)
+  else tm.le0 (tm.sub (tm.ofBits hs.ts) l.lastSecretUpdate)
+
+/-- the regenerated cookie equals the presented one -/
+def LState.cookieOk {T} (mac : Mac) (l : LState T) (addr : String) (hs : HsData) : Bool :=
+  l.cookie mac addr hs.secretId hs.ts == hs.cookie
+
+/-- the cookie check of `IncomingConnectionless` for a non-initial handshake packet: `0` (challenge passed),
+`-6` (lifetime / secret-id-vs-rotation-time test failed) or `-7` (cookie does not match) -/
+def LState.decision {T} (tm : TimeOps T) (mac : Mac) (e : Env) (l : LState T) (addr : String) (hs : HsData) : Int :=
+  if !(LState.validLife tm e hs && l.validSecret tm hs) then -6
+  else if !l.cookieOk mac addr hs then -7 else 0
+
+/-- exact time algebra (integer microseconds): the instance the C07 theorems are proved for.  The wire
+pattern of a timestamp is its value; `utcp_gettime` is the µs clock plus one second. -/
+def intOps : TimeOps Int where
+  now := fun us => us + 1000000
+  ofBits := fun b => (b.toNat : Int)
+  toBits := fun t => UInt64.ofNat t.toNat
+  sub := fun a b => a - b
+  lifeLeft := fun x => Gen.MAX_COOKIE_LIFETIME_S * 1000000 - x
+  ge0 := fun x => decide (x ≥ 0)
+  gt0 := fun x => decide (x > 0)
+  le0 := fun x => decide (x ≤ 0)
+  lt0 := fun x => decide (x < 0)
+  isZero := fun x => x == 0
 
 /-- what a successful challenge response hands to the application (`utcp_listener_accept` consumes it) -/
 structure Accepted where
@@ -395,52 +440,62 @@ structure Accepted where
   clientSeq : Int
   deriving DecidableEq, Repr
 
-/-- `utcp_listener_incoming`: new listener state, rng, return code, and the acceptance (if any). -/
-def Listener.incoming {T} (tm : TimeOps T) (mac : Mac) (e : Env) (rng : Rng) (l : Listener T) (addr : String) (bytes : List UInt8) :
-    Listener T × Rng × Int × Option Accepted :=
+/-- the listener's reaction to one datagram -/
+structure Reaction (T : Type) where
+  st : LState T                 -- the persistent state afterwards
+  rng : Rng
+  code : Int                    -- return value of `utcp_listener_incoming`
+  acc : Option Accepted         -- the acceptance reported through `on_accept`, if any
+  evs : List Event              -- events, newest first
+
+/-- `IncomingConnectionless` for a handshake packet that parsed, followed by the accept logic of
+`process_connectionless_packet` -/
+def LState.onHandshake {T} (tm : TimeOps T) (mac : Mac) (e : Env) (rng : Rng) (l : LState T) (addr : String) (client : Nat) (hs : HsData) : Reaction T :=
+  if hs.ptype == ptInitial && tm.isZero (tm.ofBits hs.ts) then
+    -- `SendConnectChallenge`
+    let now := tm.now e.elapsedUs
+    let sid := l.active != 0
+    let ck := l.cookie mac addr sid (tm.toBits now)
+    let body := hsPacket e hs.curVer (e.travel % 4) client false ptChallenge hs.sentCount hs.netVer sid (tm.toBits now) ck []
+    let r := capHandshake e rng hs.curVer body
+    -- an empty address string "passes" `HasPassedChallenge` vacuously (the property excludes it)
+    if addr.isEmpty then
+      { st := l, rng := r.1, code := 0, evs := [.accept false "-", .out (bitsBytes r.2)],
+        acc := some { addr := addr, restarted := false, cookie := List.replicate 20 0, serverSeq := 0, clientSeq := 0 } }
+    else { st := l, rng := r.1, code := 0, acc := none, evs := [.out (bitsBytes r.2)] }
+  else if l.decision tm mac e addr hs != 0 then { st := l, rng := rng, code := l.decision tm mac e addr hs, acc := none, evs := [] }
+  else
+    let auth := if hs.restart then hs.origCookie else hs.cookie
+    let body := hsPacket e hs.curVer (e.travel % 4) client false ptAck hs.sentCount hs.netVer true 0xBFF0000000000000 auth []
+    let r := capHandshake e rng hs.curVer body
+    { st := { l with addrScratch := (addr.toUTF8.toList).drop 1 }, rng := r.1, code := 0,
+      evs := [.accept hs.restart (if addr.isEmpty then "-" else addr), .out (bitsBytes r.2)],
+      acc := some { addr := addr, restarted := hs.restart, cookie := auth,
+                    serverSeq := if hs.restart then 0 else seqFromCookie hs.cookie 0,
+                    clientSeq := if hs.restart then 0 else seqFromCookie hs.cookie 1 } }
+
+/-- `utcp_listener_incoming` as a function of the persistent state -/
+def LState.react {T} (tm : TimeOps T) (mac : Mac) (e : Env) (rng : Rng) (l : LState T) (addr : String) (bytes : List UInt8) : Reaction T :=
   match readInit bytes with
-  | none => (l, rng, -1, none)
+  | none => { st := l, rng := rng, code := -1, acc := none, evs := [] }
   | some bits =>
     match readOutgoingHeader e bits with
-    | .fail _ => (l, rng, -2, none)
+    | .fail _ => { st := l, rng := rng, code := -2, acc := none, evs := [] }
     | .ok (_, client, isHs) rest =>
       if !isHs then
         -- `SendRestartHandshakeRequest(fd, EHandshakeVersion_Original, 0, 0, 0)`
-        let (rng, pkt) := capHandshake e rng 0 (hsOutgoingHeader e 0 0 0 true ++ [true])
-        (l.emit (.out (bitsBytes pkt)), rng, -3, none)
+        let r := capHandshake e rng 0 (hsOutgoingHeader e 0 0 0 true ++ [true])
+        { st := l, rng := r.1, code := -3, acc := none, evs := [.out (bitsBytes r.2)] }
       else
       match parseHandshake rest with
-      | none => (l, rng, -4, none)
-      | some hs =>
-        let ts := tm.ofBits hs.ts
-        if hs.ptype == ptInitial && tm.isZero ts then
-          -- `SendConnectChallenge`
-          let now := tm.now e.elapsedUs
-          let sid := l.active != 0
-          let ck := l.cookie mac addr sid (tm.toBits now)
-          let body := hsPacket e hs.curVer (e.travel % 4) client false ptChallenge hs.sentCount hs.netVer sid (tm.toBits now) ck []
-          let (rng, pkt) := capHandshake e rng hs.curVer body
-          let l := l.emit (.out (bitsBytes pkt))
-          -- an empty address string "passes" `HasPassedChallenge` vacuously (the property excludes it)
-          if addr.isEmpty then (l.emit (.accept false "-"), rng, 0, some { addr := addr, restarted := false, cookie := List.replicate 20 0, serverSeq := 0, clientSeq := 0 })
-          else (l, rng, 0, none)
-        else
-          let cookieDelta := tm.sub (tm.now e.elapsedUs) ts
-          let secretDelta := tm.sub ts l.lastSecretUpdate
-          let validLife := tm.ge0 cookieDelta && tm.gt0 (tm.lifeLeft cookieDelta)
-          let validSecret := if (if hs.secretId then 1 else 0) == l.active then tm.ge0 secretDelta else tm.le0 secretDelta
-          if !(validLife && validSecret) then (l, rng, -6, none) else
-          let regen := l.cookie mac addr hs.secretId hs.ts
-          if regen != hs.cookie then (l, rng, -7, none) else
-          let auth := if hs.restart then hs.origCookie else hs.cookie
-          let body := hsPacket e hs.curVer (e.travel % 4) client false ptAck hs.sentCount hs.netVer true 0xBFF0000000000000 auth []
-          let (rng, pkt) := capHandshake e rng hs.curVer body
-          let l := l.emit (.out (bitsBytes pkt))
-          let l := l.emit (.accept hs.restart (if addr.isEmpty then "-" else addr))
-          let acc : Accepted := { addr := addr, restarted := hs.restart, cookie := auth,
-                                  serverSeq := if hs.restart then 0 else seqFromCookie hs.cookie 0,
-                                  clientSeq := if hs.restart then 0 else seqFromCookie hs.cookie 1 }
-          ({ l with addrScratch := (addr.toUTF8.toList).drop 1 }, rng, 0, some acc)
+      | none => { st := l, rng := rng, code := -4, acc := none, evs := [] }
+      | some hs => l.onHandshake tm mac e rng addr client hs
+
+/-- `utcp_listener_incoming`: new listener (state + log), rng, return code, and the acceptance (if any). -/
+def Listener.incoming {T} (tm : TimeOps T) (mac : Mac) (e : Env) (rng : Rng) (l : Listener T) (addr : String) (bytes : List UInt8) :
+    Listener T × Rng × Int × Option Accepted :=
+  let r := l.st.react tm mac e rng addr bytes
+  ({ st := r.st, log := r.evs ++ l.log }, r.rng, r.code, r.acc)
 
 /-- `utcp_listener_accept(listener, conn, false)` on a fresh connection (called from inside the callback) -/
 def Endpoint.accepted (e : Env) (acc : Accepted) : Endpoint :=
